@@ -83,6 +83,8 @@ SPEC = Spec(
         "(what the code did before fix 7843a17). The handler given to RequestBlock returns nil iff it received as many transactions as announced (as BlockDownloader.handleBlock does for a short stream)",
     ],
     static_checks=static_checks,
+    partial_note="node side: theorems are about the model of RequestBlock / CancelBlockRequest / completeBlock / handleBlock / run()'s onStop call (Props/C16Node.lean); not covered by theorem or run: "
+                 "HasBlock, a cancel racing with bytes in flight (the harness cancels only while the node is quiescent), the literal timers (2 min, 1 h, 60 x 10 s)",
     modelled_funcs=["BlockManager.AddRequest", "BlockManager.Run", "BlockManager.processRequest", "BlockManager.requestBlock", "BlockManager.cancelDownloaders",
                     "BlockManager.removeDownloader", "BlockManager.markBlockRequestComplete", "downloadFinisher.onDownloaderCompleted", "BlockManager.Stop",
                     "BlockManager.shutdown", "BlockManager.close", "NewBlockManager",
@@ -101,11 +103,16 @@ META = dict(
          "Run returns once and returns nil only if HandleBlock ran to its end with nil. Manager (queue, registry of N downloaders finishing/failing in any order): a request id is signalled at most once and, "
          "while Run lives, every request is signalled, current or queued; a closed signal is preceded by an effective mark caused by a downloader that returned nil for that hash while it was current; "
          "uncancelled downloads <= max(concurrentBlockRequests,1), all of the current block; a registry with no pending return/finish step is empty. "
-         "Both models are tied to block_downloader.go / block_manager.go by exhaustive call-granularity interleavings and scripted-requestor runs against the real code.",
+         "Both models are tied to block_downloader.go / block_manager.go by exhaustive call-granularity interleavings and scripted-requestor runs against the real code. "
+         "Node side (Props/C16Node.lean, 12 theorems about the connection model of Model/Node.lean + Model/Wire.lean): CancelBlockRequest answers true iff the request is for this hash, its block message has begun "
+         "and the handler thread was started - in every reachable state that means the handler was called and has not returned; a cancel before the block message keeps the request (node stays busy) and the later block "
+         "message is skipped to exactly its length; an in-progress cancel closes the connection, disarms onStop and gives a started handler the end of its stream; RequestBlock while busy is refused and changes nothing; "
+         "onStop is invoked at the end of run() at most once, only for an outstanding, uncancelled request whose handler was not started, and always for such a request. Tied to bitcoin_node.go / handlers.go by the `node` "
+         "stream: a scripted peer delivering the requested block whole, in pieces cut at every kind of position, wrong, or never, with cancels and peer drops at each point.",
     note=COMMON_NOTE + "The downloader model is nondeterministic; the driver tracks the set of model states compatible with the observations and rejects an observation the model does not allow. "
          "Timers (2 min, 1 h, 60 x 10 s) are literals in the code and are not exercised; interleavings finer than a call are covered by the proofs only. "
          "Findings, none a C16 violation: (1) Stop between the handler's Started and Run consuming it makes Run return 'cancelled' while the handler may still confirm the block "
-         "(corpus/C16/blkdl-stop-before-run-consumes.ops, theorem C16_note_cancelled_yet_confirmed) - relevant to C05; (2) bitcoin_node.go answers 'already started' before HandleBlock is called, "
-         "and never calls it if reading the tx count then fails: Run is released only by timers (case 5 of C16_run_progress); (3) the first requestBlock of a request ignores the registry: "
+         "(corpus/C16/blkdl-stop-before-run-consumes.ops, theorem C16_note_cancelled_yet_confirmed) - relevant to C05; (2) found by the node stream and repaired in /repo: CancelBlockRequest blocked on a stalled download holding the node lock (7843a17), answered 'already started' before HandleBlock was called (3cf55e1), "
+         "a recovered panic in handleBlock left the handler parked on its channel (3c351de), a peer drop between block header and tx count gave no terminal signal (6b52a4a); regression corpus/C16/node-*.ops; (3) the first requestBlock of a request ignores the registry: "
          "with concurrentBlockRequests=0 one download still runs, and a re-request of a hash whose cancelled download still lingers exceeds the configured count in the registry.",
 )
